@@ -232,6 +232,10 @@ type prog struct {
 	Bounds   map[string]int `json:"peach_bounds"`
 	HasSleep bool           `json:"has_endless_sleep"`
 	Features []string       `json:"features"`
+	// NoEnd: the program has no final `v-step m END` (every chunk is exactly
+	// one pipeline); Events is then the exact number of events of a full run.
+	NoEnd  bool `json:"single_pipeline_chunks,omitempty"`
+	Events int  `json:"events_of_full_run,omitempty"`
 }
 
 func genProg(r *rand.Rand) *prog {
@@ -441,6 +445,12 @@ func runOne(c *mon.Case, p *prog, plan cancelPlan) {
 		// the interrupt was delivered from inside a command of the program:
 		// the program cannot have finished
 		c.Count("sync_cancels_delivered", 1)
+		if p.NoEnd {
+			c.Count("single_pipeline_chunk_cancels", 1)
+			if plan.N == p.Events {
+				c.Count("single_pipeline_chunk_cancels_in_last_event", 1)
+			}
+		}
 		if !interrupted {
 			fail("not-interrupted", fmt.Sprintf("the interrupt was delivered inside the program (thread %s) but Eval returned %v", cancelThread, res.Err))
 		}
@@ -448,7 +458,7 @@ func runOne(c *mon.Case, p *prog, plan cancelPlan) {
 			fail("ran-to-end-after-interrupt", "the program's last statement ran although the interrupt was delivered before")
 		}
 	default:
-		if res.Err == nil && !endSeen {
+		if res.Err == nil && !endSeen && !p.NoEnd {
 			fail("cut-short-without-exception", "Eval returned no exception although the program did not reach its last statement")
 		}
 		if res.Err != nil && !interrupted && len(others) == 0 {
@@ -509,7 +519,7 @@ func runOne(c *mon.Case, p *prog, plan cancelPlan) {
 	if cancelDone != 0 && len(late) > 0 {
 		c.Count("runs_with_events_after_interrupt", 1)
 	}
-	if cancelledBeforeReturn && nSteps > 0 {
+	if cancelledBeforeReturn && (nSteps > 0 || p.NoEnd) {
 		c.Nontrivial(p.Code, plan.Mode, plan.N, plan.DelayU)
 	}
 	for _, f := range p.Features {
@@ -541,6 +551,80 @@ func runSync(c *mon.Case) {
 	runOne(c, p, cancelPlan{Mode: "sync", N: n, Gmp: []int{1, 4, 16}[c.Rand.Intn(3)]})
 }
 
+// single phase: programs in which EVERY chunk (top level and every body) is
+// exactly one pipeline, interrupted from inside in the last events of the
+// run (last iteration, last callback, last command) and at earlier ones.
+// The interrupt is delivered inside a command of the program, before the
+// program has finished, so Eval must return the interrupted exception.
+func singleProg(r *rand.Rand, k int) *prog {
+	n := 1 + r.Intn(4)
+	items := func(g string) string {
+		var it []string
+		for j := 0; j < n; j++ {
+			it = append(it, fmt.Sprintf(`"m/%s:%d"`, g, j))
+		}
+		return strings.Join(it, " ")
+	}
+	bs, bn := "+inf", 0
+	if r.Intn(3) > 0 {
+		bn = 1 + r.Intn(3)
+		bs = fmt.Sprint(bn)
+	}
+	p := &prog{NoEnd: true, Bounds: map[string]int{}}
+	name := ""
+	switch k % 16 {
+	case 0:
+		name, p.Code, p.Events = "lone-step", `v-step "m" only`, 1
+	case 1:
+		name, p.Code, p.Events = "lone-cancel", `v-cancel "m"`, 0
+	case 2:
+		name, p.Code, p.Events = "lone-job", `v-job1 "m/g:0"`, 2
+	case 3:
+		name, p.Code, p.Events = "each-go", "each $v-job1~ ["+items("g")+"]", 2*n
+	case 4:
+		name, p.Code, p.Events = "each-lambda", "each {|x| v-job1 $x } ["+items("g")+"]", 2*n
+	case 5:
+		name, p.Code, p.Events = "for", fmt.Sprintf(`for x [(range %d)] { v-step "m" f$x }`, n), n
+	case 6:
+		name, p.Code, p.Events = "peach-lambda", "peach &num-workers=(num "+bs+") {|x| v-job1 $x } ["+items("g")+"]", 2*n
+	case 7:
+		name, p.Code, p.Events = "peach-go", "peach &num-workers=(num "+bs+") $v-job1~ ["+items("g")+"]", 2*n
+	case 8:
+		name, p.Code, p.Events = "try-finally", `try { v-step "m" a } finally { v-step "m" b }`, 2
+	case 9:
+		name, p.Code, p.Events = "pipeline-each", fmt.Sprintf(`range %d | each {|x| v-step "m/s1" r$x }`, n), n
+	case 10:
+		name, p.Code, p.Events = "nested-each", `each {|x| each {|y| v-job1 $y } ["m/h"$x":0" "m/h"$x":1"] } [0 1]`, 8
+	case 11:
+		name, p.Code, p.Events = "lambda-call", `{ v-step "m" inner }`, 1
+	case 12:
+		name, p.Code, p.Events = "for-cancel", fmt.Sprintf(`for x [(range %d)] { v-cancel "m" }`, n), 0
+	case 13:
+		name, p.Code, p.Events = "run-parallel", `run-parallel { v-step "m/r0" a } { v-job1 "m/g:1" }`, 3
+	case 14:
+		name, p.Code, p.Events = "capture", `put (v-job1 "m/g:0")`, 2
+	default:
+		name, p.Code, p.Events = "try-catch", `try { v-step "m" a } catch e { v-step "m" c }`, 1
+	}
+	if bn > 0 && (k%16 == 6 || k%16 == 7) {
+		p.Bounds["g"] = bn
+	}
+	p.Code += "\n"
+	p.Est = p.Events
+	p.Features = []string{"single:" + name}
+	return p
+}
+
+func runSingle(c *mon.Case) {
+	p := singleProg(rand.New(rand.NewSource(c.Env.Seed*7919+int64(c.I/64))), c.I)
+	// positions: the last event, the one before, ... (c.I/16 cycles through 4)
+	n := p.Events - (c.I/16)%4
+	if n < 1 {
+		n = p.Events // (0 = the program cancels explicitly with v-cancel)
+	}
+	runOne(c, p, cancelPlan{Mode: "sync", N: n, Gmp: []int{1, 4, 16}[c.Rand.Intn(3)]})
+}
+
 func runAsync(c *mon.Case) {
 	p := progFor(c, "async", c.I/4)
 	plan := cancelPlan{Gmp: []int{1, 4, 16}[c.Rand.Intn(3)]}
@@ -557,7 +641,7 @@ func runAsync(c *mon.Case) {
 func Spec() *mon.Spec {
 	return &mon.Spec{
 		ID: "C19", Level: "exploration", Race: true,
-		Rule: "program = 2..4 blocks drawn from 18 templates (step sequences, for/while/each loops, 2-3 stage pipelines with up to 40 items, peach with lambda callbacks, peach with a Go-builtin callback, peach fed by a pipeline, bounds 1..4 and +inf, run-parallel, an endless `sleep` next to a sibling, recursive function calls, try/finally, try/catch, background job, output capture, defer, short sleeps; nested up to depth 2), every statement being `v-step <thread> <id>` or a construct of such statements. sync phase: each program is interrupted from INSIDE (the harness builtin that records the N-th event cancels the Interrupts context before it returns), N swept over 16 positions of the program's events; async phase: a harness goroutine cancels after N observed events or after a swept delay (0..6 ms). GOMAXPROCS from {1,4,16}, race detector on. Non-trivial = run in which the interrupt was delivered before Eval returned and at least one step had run; distinct by (program, mode, position).",
+		Rule: "program = 2..4 blocks drawn from 18 templates (step sequences, for/while/each loops, 2-3 stage pipelines with up to 40 items, peach with lambda callbacks, peach with a Go-builtin callback, peach fed by a pipeline, bounds 1..4 and +inf, run-parallel, an endless `sleep` next to a sibling, recursive function calls, try/finally, try/catch, background job, output capture, defer, short sleeps; nested up to depth 2), every statement being `v-step <thread> <id>` or a construct of such statements. sync phase: each program is interrupted from INSIDE (the harness builtin that records the N-th event cancels the Interrupts context before it returns), N swept over 16 positions of the program's events; single phase: 16 templates in which EVERY chunk (top level and every body) is exactly one pipeline (a lone command, each/for/peach with one-pipeline bodies, try/finally, nested each, run-parallel, capture, explicit v-cancel as the only/last command), interrupted inside the last event of the run and the three before; async phase: a harness goroutine cancels after N observed events or after a swept delay (0..6 ms). GOMAXPROCS from {1,4,16}, race detector on. Non-trivial = run in which the interrupt was delivered before Eval returned and at least one step had run; distinct by (program, mode, position).",
 		Assumptions: []string{
 			"'no further pipeline starts' is decided on the logical clock only: a step S violates it if some event E that happens-before S's pipeline start (same thread label, a descendant thread that the thread waited for, or an ancestor thread blocked on it) returned after the cancellation had completed; a pipeline whose start check raced with the interrupt on another goroutine is not a violation",
 			"background jobs (`... &`) are exempt from the step rule, as the property says; they only record events and end by themselves",
@@ -567,11 +651,13 @@ func Spec() *mon.Spec {
 		},
 		Phases: []mon.Phase{
 			{Name: "sync", Quick: 320, Thorough: 32000, Run: runSync, GoMaxProcs: 16, Timeout: 150 * time.Second, Batch: 16},
+			{Name: "single", Quick: 192, Thorough: 3200, Run: runSingle, GoMaxProcs: 16, Timeout: 150 * time.Second, Batch: 16},
 			{Name: "async", Quick: 160, Thorough: 16000, Run: runAsync, GoMaxProcs: 16, Timeout: 150 * time.Second, Batch: 16},
 		},
 		HangViolation: true,
 		Floors: map[string]int{"distinct_nontrivial": 60, "sync_cancels_delivered": 40, "runs_interrupted": 90, "steps": 700,
 			"cancel_positions": 60, "runs_with_events_after_interrupt": 40, "feature_peach-go": 16, "feature_peach-lambda": 8, "feature_sleepy": 8,
-			"feature_pipeline": 8, "feature_run-parallel": 8, "feature_try-finally": 8, "concurrency_seen_in_bounded_peach": 2},
+			"feature_pipeline": 8, "feature_run-parallel": 8, "feature_try-finally": 8, "concurrency_seen_in_bounded_peach": 2,
+			"single_pipeline_chunk_cancels": 60, "single_pipeline_chunk_cancels_in_last_event": 25},
 	}
 }
